@@ -463,6 +463,10 @@ def apply_container(fn, vals, cont):
         buf = np.full(2 * v.size, 0.5)
         buf[::2] = v
         return np.asarray(fn(buf[::2]))
+    if cont == "int1d":          # integral values given with an integer dtype (np.arange(...) grids)
+        return np.asarray(fn(v.astype(np.int64)))
+    if cont == "pyint":
+        return np.array([fn(int(t)) for t in v])
     raise KeyError(cont)
 
 
@@ -1353,6 +1357,9 @@ def fixed_cases():
     """Deterministic witnesses driven every run (regression cases of repaired defects)."""
     return [
         {"kind": "sat", "cls": "fixed-0d", "T": [260.0], "containers": ["1d", "0d"]},
+        # whole-kelvin grids given as integers (np.arange(100, 401, 7) and python ints)
+        {"kind": "sat", "cls": "fixed-int", "T": [float(t) for t in range(100, 401, 7)],
+         "containers": ["1d", "int1d", "pyint"]},
         {"kind": "branch", "cls": "fixed-branch",
          "T": [250.16, 250.16000000000003, 250.15999999999997, 273.15999999999997, 273.16,
                273.16000000000003],
